@@ -99,6 +99,9 @@ class Sandbox:
             os.makedirs(os.path.join(self.root, d))
         os.symlink("proj", os.path.join(self.root, "S/work/proj_link"))
         os.symlink("outs", os.path.join(self.root, "outs_link"))
+        # a symlink into a directory one level BELOW outs: '<root>/deep_link/..' is outs, lexically it is <root>
+        os.makedirs(os.path.join(self.root, "outs/deep"), exist_ok=True)
+        os.symlink("outs/deep", os.path.join(self.root, "deep_link"))
         self.root = os.path.realpath(self.root)
         self.pkg = pkg
         self.proj = os.path.join(self.root, "S/work/proj")
@@ -134,6 +137,7 @@ class Sandbox:
             p = os.path.join(self.root, d)
             shutil.rmtree(p, ignore_errors=True)
             os.makedirs(p)
+        os.makedirs(os.path.join(self.root, "outs/deep"), exist_ok=True)
         for d in ("decoy_pkg", "decoy_file"):
             shutil.rmtree(os.path.join(self.root, d), ignore_errors=True)
             os.makedirs(os.path.join(self.root, d))
@@ -216,6 +220,10 @@ def _spell(path: str, spelling: str, cwd: str, sb: Sandbox, is_out: bool) -> str
         if is_out:
             return path.replace(os.path.join(sb.root, "outs"), os.path.join(sb.root, "outs_link"), 1)
         return path.replace(sb.proj, os.path.join(sb.root, "S/work/proj_link"), 1)
+    if spelling == "symlink_dotdot":
+        if is_out and path.startswith(os.path.join(sb.root, "outs") + "/"):
+            return os.path.join(sb.root, "deep_link", "..", os.path.relpath(path, os.path.join(sb.root, "outs")))
+        return path
     if spelling == "reltrail":
         return os.path.relpath(path, cwd) + "/"
     raise ValueError(spelling)
